@@ -426,6 +426,11 @@ func c15Gen(r *Rng, tier string, emit func(string)) {
 		}
 		nu := r.Intn(11)
 		base := int64(1000)
+		if r.Chance(8) {
+			// stamps beyond what fits a count of nanoseconds in an int64 (after 2262-04-11): time.Time compares
+			// them exactly, UnixNano wraps
+			base = 40000000000 + int64(r.Intn(1000))
+		}
 		type up struct {
 			idx         int
 			ver, ts, cs int64
@@ -475,6 +480,11 @@ func c15Gen(r *Rng, tier string, emit func(string)) {
 			utoks = append(utoks, fmt.Sprintf("%d:%d:%d:%d:%d:%d:%d", u.idx, u.ver, u.ts, u.cs, u.la, u.lo, u.rev))
 		}
 		pickT := func() int64 {
+			if r.Chance(6) {
+				// sentinel cut-offs callers use for "everything" / "nothing": 9999-12-31T23:59:59Z, year 3000,
+				// the zero time.Time, year 1600 - all outside the int64-nanosecond range
+				return []int64{253402300799 << 2, 32503680000 << 2, -62135596800 << 2, -11676096000 << 2}[r.Intn(4)]
+			}
 			switch r.Intn(5) {
 			case 0:
 				return base - 1
